@@ -30,6 +30,17 @@ pub fn adv_of(gid: u32) -> i32 {
     300 + 7 * (gid % 64) as i32
 }
 
+static MAC_CMAP: std::sync::atomic::AtomicBool = std::sync::atomic::AtomicBool::new(false);
+
+/// The font with a space glyph and unmapped ignorables whose only cmap subtable is Macintosh Roman ("SUm").
+fn gen_font_mac(spec: &[(u32, u32)]) -> GenFont {
+    MAC_CMAP.store(true, std::sync::atomic::Ordering::Relaxed);
+    let mut f = gen_font_full(true, false, spec, None, false);
+    MAC_CMAP.store(false, std::sync::atomic::Ordering::Relaxed);
+    f.name = "SUm".to_string();
+    f
+}
+
 /// groups: (first char, last char, first glyph), sorted by char.
 fn build_font(groups: &[(u32, u32, u32)], num_glyphs: u16, gdef_class: Option<u16>, kern_pairs: &[(u16, u16, i16)]) -> Vec<u8> {
     let mut head = Vec::new();
@@ -73,8 +84,11 @@ fn build_font(groups: &[(u32, u32, u32)], num_glyphs: u16, gdef_class: Option<u1
     let mut cmap = Vec::new();
     be16(&mut cmap, 0); // version
     be16(&mut cmap, 1); // numTables
-    be16(&mut cmap, 3); // platform
-    be16(&mut cmap, 10); // encoding
+    // one encoding record: Windows / Unicode full repertoire, or - MAC_CMAP - Macintosh Roman only (a legacy font without
+    // any Unicode-encoded subtable: the shaper still maps ASCII through it, U+0020 included)
+    let mac = MAC_CMAP.load(std::sync::atomic::Ordering::Relaxed);
+    be16(&mut cmap, if mac { 1 } else { 3 }); // platform
+    be16(&mut cmap, if mac { 0 } else { 10 }); // encoding
     be32(&mut cmap, 12); // offset
     be16(&mut cmap, 12); // format
     be16(&mut cmap, 0);
@@ -839,6 +853,7 @@ fn search(args: &[String]) {
     fonts.push(gen_font_full(true, true, &spec, None, true));
     fonts.push(gen_font_full(false, false, &spec, None, true));
     fonts.push(gen_font_full2(true, true, &spec, None, true, true));
+    fonts.push(gen_font_mac(&spec));
     let faces: Vec<Face> = fonts.iter().map(|f| Face::from_slice(&f.data, 0).expect("generated font")).collect();
     let mut letters = letters();
     // precomposed letters no font maps: .notdef where the font lacks the pieces, decomposed where it has them
@@ -919,6 +934,7 @@ fn one(args: &[String]) {
     fonts.push(gen_font_full(true, true, &spec, None, true));
     fonts.push(gen_font_full(false, false, &spec, None, true));
     fonts.push(gen_font_full2(true, true, &spec, None, true, true));
+    fonts.push(gen_font_mac(&spec));
     let name = arg_str(args, "--font").unwrap_or("SM");
     let fi = fonts.iter().position(|f| f.name == name).unwrap_or(0);
     let face = Face::from_slice(&fonts[fi].data, 0).expect("generated font");
